@@ -298,6 +298,9 @@ type DCMISensorInfo struct {
 	IDs      map[[2]byte][]uint16
 	PageSize int           // record IDs per response, 1..8
 	ErrFor   map[byte]byte // entity ID -> completion code to return instead
+	// ErrFrom: entity ID -> first instance start from which requests fail with 0xCE
+	// (earlier pages are answered)
+	ErrFrom  map[byte]int
 	Requests []DCMIReq
 }
 
@@ -319,6 +322,9 @@ func (d *DCMISensorInfo) Handle(ev *Event) (byte, []byte, bool) {
 	d.Requests = append(d.Requests, rq)
 	if cc, ok := d.ErrFor[rq.Entity]; ok {
 		return cc, []byte{0xdc}, true
+	}
+	if from, ok := d.ErrFrom[rq.Entity]; ok && rq.Instance == 0 && int(rq.Start) >= from {
+		return 0xce, []byte{0xdc}, true
 	}
 	ids := d.IDs[[2]byte{rq.Type, rq.Entity}]
 	total := len(ids)
